@@ -108,7 +108,9 @@ def cases(rng, tier):
                 op = rc.op_append(rng, "r%d" % j, sz)
                 if enc_fail and rng.chance(1, 3):
                     # a record whose encoder fails after writing a few bytes, then the record proper
-                    ops.append([11, rc.chunked(rng, rc.rec_bytes(rng, "f%d" % j, rng.range(1, 9)))])
+                    # ... or (third element 1) an ordinary record whose FLUSH fails because the file cannot grow (the
+                    # disk is full): the bytes stay in the writer's buffer, counted, exactly as after a failed encoder
+                    ops.append([11, rc.chunked(rng, rc.rec_bytes(rng, "f%d" % j, rng.range(1, 9)))] + ([1] if rng.chance(1, 2) else []))
                 if nested and rng.chance(1, 2):
                     # the roller (or the encoder) of this call appends a record to a SECOND size-triggered rolling
                     # appender from inside the call: it must be counted and rolled there like any record
